@@ -7,6 +7,7 @@ from ..util import KIND, EPS
 
 PROPERTY = "C10"
 PYTEST_PREFIX = "C10/"
+TECHNIQUE = "runtime monitoring: contract monitor + shadow executions (permutation, widening gap, equalised teams)"
 LEVEL = "exploration"
 RULE = ("Contract + shadow executions on the real predict_draw: value in [0,1] (4 ulp); invariant under a random "
         "permutation of teams and of players within teams (1e-12); two teams: moving one member's mu outward in 6 "
